@@ -21,6 +21,35 @@ type zInt int
 
 func (z zInt) IsZero() bool { return z%2 == 1 }
 
+// MethStr and MethSlice have a Go-empty zero value that their own MarshalJSON
+// turns into a non-empty JSON value: whether an omitempty member is dropped
+// must be decided by what the method writes, not by the length.
+type MethStr string
+
+func (m MethStr) MarshalJSON() ([]byte, error) { return []byte(`"m:` + string(m) + `"`), nil }
+func (m *MethStr) UnmarshalJSON(b []byte) error {
+	if len(b) >= 2 && b[0] == '"' {
+		*m = MethStr(b[1 : len(b)-1])
+	}
+	return nil
+}
+
+type MethSlice []int
+
+func (m MethSlice) MarshalJSON() ([]byte, error) { return []byte(fmt.Sprintf(`{"n":%d}`, len(m))), nil }
+func (m *MethSlice) UnmarshalJSON(b []byte) error {
+	*m = MethSlice{len(b)}
+	return nil
+}
+
+// otherT never occurs in a value: functions registered for it are unrelated to every field.
+type otherT struct{ Z int }
+
+func init() {
+	tv.RegisterPool(tv.PoolType{Name: "MethStr", Type: reflect.TypeFor[MethStr](), Under: &tv.Desc{K: "string"}})
+	tv.RegisterPool(tv.PoolType{Name: "MethSlice", Type: reflect.TypeFor[MethSlice](), Under: &tv.Desc{K: "slice", Elem: &tv.Desc{K: "int"}}})
+}
+
 type inner struct {
 	Ab int `json:"ab"`
 	X  int
